@@ -356,6 +356,10 @@ class GeneralThermodynamics:
             Gibbs free energy to add to phase. Defaults to 0
         '''
         x = _process_x(x, len(set(self.elements)-{'VA'}))
+        # Compositions at or below the mass balance tolerance of the solver (1e-12) are treated by pycalphad as an absent component
+        # (its chemical potential is returned as 0), e.g. the matrix composition of a precipitation model that was clamped to 0
+        # So the smallest composition passed on is ten times that tolerance
+        x = np.maximum(x, 1e-11)
         cond = {v.X(self.elements[i+1]): x[i] for i in range(len(x))}
         cond.update({v.GE: gExtra, v.N: 1, v.P: 101325, v.T: T})
         return cond
